@@ -159,22 +159,27 @@ Fixpoint expand_otto (repl : list Z) (s : list Z) (mm : mtch) : list Z :=
   end.
 
 (* builtinStringReplace *)
-Definition replace_model (g : bool) (li : Z) (s : list Z) (repl : option (list Z)) : option (list ov * Z) :=
+Definition replace_model (g : bool) (li : Z) (s : list Z) (repl : rv) : option (list ov * Z) :=
   match find_all s (if g then -1 else 1) with
   | None => None
   | Some [] => Some ([OS s], if g && negb (d_gproto dv) then 0 else li)
   | Some ms =>
       let expand := match repl with
-                    | Some rp => if d_dollar dv then (fun m => Some (expand_otto rp s m)) else (fun m => expand_spec rp s m)
-                    | None => fun m : mtch => Some (fn_repl (snd m))
+                    | RText rp => if d_dollar dv then (fun m => Some (expand_otto rp s m)) else (fun m => expand_spec rp s m)
+                    | RFun ret => fun m : mtch => Some (fn_repl ret (snd m))
                     end in
       match build expand s 0 ms with
       | None => None
       | Some res =>
-          let log := match repl with Some _ => [] | None => flat_map (fn_log s) ms end in
+          let log := match repl with RText _ => [] | RFun _ => flat_map (fn_log s) ms end in
           Some (OS res :: log, if g then (if d_gproto dv then off s (last_end ms) else 0) else li)
       end
   end.
+
+(* builtinStringReplace with a searchValue that is not a RegExp: regexp.QuoteMeta of the
+   string, first match; the same expansion code as for a RegExp *)
+Definition replace_str_model (s pat : list Z) (repl : rv) : option (list ov) :=
+  replace_str (fun rp s m => if d_dollar dv then Some (expand_otto rp s m) else expand_spec rp s m) s pat repl.
 
 (* builtinStringSearch: result[0] of FindStringIndex *)
 Definition search_model (li : Z) (s : list Z) : option (list ov * Z) :=
